@@ -4,7 +4,7 @@ from __future__ import annotations
 
 import ast
 
-from ..interp import fresh
+from ..interp import Unsupported, fresh
 from ..loader import AnalysisError
 from ..terms import K, NONE, ONE, S, T_add, T_sub, ZERO, show_norm, subterms
 from .common import Context, backing_attr, one_data_attr
@@ -58,6 +58,21 @@ TRIAGE = {
         ("closed", "Binomial over its full support for each x (finite)"),
     ("HendrixTwoProductPerishable", "_calculate_pz", "poisson.pmf"):
         ("open", "Poisson demand for A truncated at max_demand, a point independent of the Poisson mean, no tail folding"),
+}
+
+
+# the argument text of each triaged call, as read (a call that moves to another method keeps it)
+TRIAGE_ARGS = {
+    ("DeMoorSingleProductPerishable", "_calculate_demand_probabilities", "Gamma.cdf"): ("jnp.hstack([0, jnp.arange(0.5, self.max_demand + 1.5)])",),
+    ("MirjaliliPlateletPerishable", "_calculate_demand_probabilities", "NegativeBinomialProbs.log_prob"): ("jnp.arange(0, self.max_demand + 1)",),
+    ("MirjaliliPlateletPerishable", "_calculate_received_order_probabilities", "Multinomial.log_prob"): ("received_order",),
+    ("HendrixTwoProductPerishable", "_get_probs_ia_lt_stock_a_ib_lt_stock_b", "poisson.pmf"):
+        ("jnp.arange(self.max_stock_a + 1), self.demand_poisson_mean_a", "jnp.arange(self.max_stock_b + 1), self.demand_poisson_mean_b"),
+    ("HendrixTwoProductPerishable", "_get_probs_ia_eq_stock_a_ib_lt_stock_b", "poisson.pmf"): ("jnp.arange(self.max_stock_b + 1), self.demand_poisson_mean_b",),
+    ("HendrixTwoProductPerishable", "_get_probs_ia_eq_stock_a_ib_lt_stock_b", "poisson.cdf"): ("stock_a - 1, self.demand_poisson_mean_a",),
+    ("HendrixTwoProductPerishable", "_calculate_pu", "poisson.pmf"): ("x + y, self.demand_poisson_mean_b",),
+    ("HendrixTwoProductPerishable", "_calculate_pu", "binom.pmf"): ("0, x, self.substitution_probability", "u, x, self.substitution_probability"),
+    ("HendrixTwoProductPerishable", "_calculate_pz", "poisson.pmf"): ("np.arange(self.max_demand + 1), self.demand_poisson_mean_a",),
 }
 
 
@@ -179,20 +194,35 @@ def run(ctx: Context, col) -> None:
     # ---- triage of all call sites
     sites = _call_sites(ctx)
     seen_keys = set()
+    untriaged = []
     for cls, meth, fn, c, callee in sites:
         key = (cls.name, meth, callee)
-        seen_keys.add(key)
         tri = TRIAGE.get(key)
         construct = f"{cls.name}.{meth}"
         if tri is None:
-            col.add("R13.1", construct, cls.module.relpath, c.lineno, False,
-                    f"distribution call `{callee}` is not in the triage table: decide whether its range is closed (tail folding / complement) and add it",
-                    text=f"{callee} [untriaged]")
-            continue
+            # the same call (class, distribution function, argument text) as a triaged one, in another method: the call has moved (a
+            # shared intermediate computed once by the caller), the verdict about its range moves with it
+            args_ = ", ".join(ast.unparse(a) for a in c.args)
+            moved = [(k_, v_) for k_, v_ in TRIAGE.items() if k_[0] == cls.name and k_[2] == callee and args_ in TRIAGE_ARGS.get(k_, ())]
+            if moved and len({v_[0] for _k, v_ in moved}) == 1:
+                for k_, _v in moved:
+                    seen_keys.add(k_)
+                tri = moved[0][1]
+                construct = f"{moved[0][0][0]}.{moved[0][0][1]}"  # keyed like the triaged site (recorded findings stay matched)
+            else:
+                untriaged.append(f"{cls.name}.{meth}: `{callee}({args_[:60]})` at line {c.lineno}")
+                continue
+        else:
+            seen_keys.add(key)
         verdict, reason = tri
         col.add("R13.1", construct, cls.module.relpath, c.lineno, verdict == "closed",
                 f"{callee}: {reason}", text=f"{callee} [{verdict}]")
     part(_log_hazards, ctx, col)
+    if untriaged:
+        # a distribution call nobody has read yet: whether its range is closed (tail folded, complement taken) is not something this rule
+        # can decide by itself - no verdict, rather than a guess
+        raise AnalysisError("distribution call sites that are not in the triage table (read them, decide whether the range is closed, add them): "
+                            + "; ".join(untriaged))
     missing = [k for k in TRIAGE if k not in seen_keys]
     if missing:
         raise AnalysisError(f"anchor vanished: triaged distribution call sites no longer exist: {missing}")
@@ -300,10 +330,46 @@ def _hendrix_pairs(ctx, col):
     I = problem_interp(ctx, cls)
     I.attrs["pu"], I.attrs["pz"] = S("PU"), S("PZ")
     sa, sb = S("SA"), S("SB")
-    c1 = I.call_method("_get_probs_ia_lt_stock_a_ib_lt_stock_b", [sa, sb])
-    c2 = I.call_method("_get_probs_ia_eq_stock_a_ib_lt_stock_b", [sa, sb])
-    c3 = I.call_method("_get_probs_ia_lt_stock_a_ib_eq_stock_b", [sa, sb])
-    c4 = I.call_method("_get_probs_ia_eq_stock_a_ib_eq_stock_b", [sa, sb])
+    names4 = ("_get_probs_ia_lt_stock_a_ib_lt_stock_b", "_get_probs_ia_eq_stock_a_ib_lt_stock_b",
+              "_get_probs_ia_lt_stock_a_ib_eq_stock_b", "_get_probs_ia_eq_stock_a_ib_eq_stock_b")
+    try:
+        c1, c2, c3, c4 = (I.call_method(n_, [sa, sb]) for n_ in names4)
+    except Unsupported:
+        # the four cases no longer take (stock_a, stock_b) - e.g. intermediates shared by two cases are now computed by the caller and
+        # handed in: take each case as random_event_probability calls it, with the stock levels it passes named SA / SB
+        from ..terms import subst as _subst
+        from .problemterms import ACTION, EVENT, STATE
+
+        rec: dict[str, tuple] = {}
+        orig = I.call_fn
+
+        def spy(fn_, args_, kw_, *a_, **k_):
+            r_ = orig(fn_, args_, kw_, *a_, **k_)
+            if getattr(fn_, "name", None) in names4:
+                rec[fn_.name] = (fn_, list(args_), dict(kw_), r_)
+            return r_
+
+        I.call_fn = spy
+        try:
+            I.call_method("random_event_probability", [STATE, ACTION, EVENT])
+        except Unsupported as e:
+            raise AnalysisError(f"HendrixTwoProductPerishable.random_event_probability: {e}") from e
+        finally:
+            I.call_fn = orig
+        if set(rec) != set(names4):
+            raise AnalysisError("anchor vanished: random_event_probability no longer calls the four case helpers")
+        cs = []
+        for n_ in names4:
+            fn_, args_, kw_, r_ = rec[n_]
+            params = [a.arg for a in fn_.args.args][1:]
+            actual = dict(zip(params, args_))
+            actual.update(kw_)
+            m_ = {}
+            for p_, sym_ in (("stock_a", sa), ("stock_b", sb)):
+                if p_ in actual and actual[p_][0] != "const":
+                    m_[actual[p_]] = sym_
+            cs.append(_subst(r_, m_) if m_ else r_)
+        c1, c2, c3, c4 = cs
     o, f = ctx.ct.require(cls, "_get_probs_ia_eq_stock_a_ib_lt_stock_b")
     # A: mask (arange < SA) in case 1  <->  1 - cdf(SA - 1) in case 2
     masks1 = [t for t in subterms(c1) if t[0] == "app" and t[1] == "cmpLt" and t[2][1] == sa]
